@@ -111,7 +111,7 @@ def construct_symbolic_mpo(table, primary_ops, factor, algo="Hopcroft-Karp"):
         mpo: List[np.ndarray[List[Op]]] = []
         mpoqn = [np.zeros((1, qn_size), dtype=int)]
         op2idx = dict(zip(primary_ops, range(len(primary_ops))))
-        out_ops_list: List[List[OpTuple]] = [[OpTuple([0], qn=0, factor=1)]]
+        out_ops_list: List[List[List[OpTuple]]] = [[[OpTuple([0], qn=0, factor=1)]]]
         for idx in table[0]:
             op = primary_ops[idx]
             mo = np.full((1, 1), None)
@@ -119,11 +119,11 @@ def construct_symbolic_mpo(table, primary_ops, factor, algo="Hopcroft-Karp"):
             mpo.append(mo)
             qn = mpoqn[-1][0] + op.qn
             mpoqn.append(np.array([qn]))
-            out_ops_list.append([OpTuple([0, op2idx[op]], qn=qn, factor=1)])
+            out_ops_list.append([[OpTuple([0, op2idx[op]], qn=qn, factor=1)]])
 
         mpo[-1][0][0][0] = factor[0] * mpo[-1][0][0][0]
-        last_optuple = out_ops_list[-1][0]
-        out_ops_list[-1][0] = OpTuple(last_optuple.symbol, qn=last_optuple.qn, factor=factor[0]*last_optuple.factor)
+        last_optuple = out_ops_list[-1][0][0]
+        out_ops_list[-1][0][0] = OpTuple(last_optuple.symbol, qn=last_optuple.qn, factor=factor[0]*last_optuple.factor)
         qntot = qn
         mpoqn[-1] = np.zeros((1, qn_size), dtype=int)
         qnidx = len(mpo) - 1
